@@ -16,6 +16,9 @@ pub mod c06;
 pub mod c07;
 pub mod c08;
 pub mod c09;
+pub mod c13;
+pub mod c17;
+pub mod c19;
 pub mod common;
 
 impl Checker for Box<dyn Checker> {
